@@ -100,6 +100,16 @@ func noteCtx(ctx z.Ctx, rec *Recorder) {
 	}
 }
 
+// reusedTest: one shared definition built with z.TestFunc, a by-value copy specialised per use site
+func reusedTest(n *Node, t TestSpec, rec *Recorder) z.Test {
+	shared := z.TestFunc("", fnTest(n, t, rec))
+	cp := shared
+	for _, o := range t.Opts.zopts() {
+		o(&cp)
+	}
+	return cp
+}
+
 func fnTest(n *Node, t TestSpec, rec *Recorder) z.BoolTFunc {
 	return func(val any, ctx z.Ctx) bool {
 		noteCtx(ctx, rec)
@@ -217,7 +227,11 @@ func buildNum[T int | int32 | int64 | float64 | float32](s *z.NumberSchema[T], n
 			}
 			s.OneOf(xs, o...)
 		case "fn":
-			s.TestFunc(fnTest(n, t, rec), o...)
+			if t.Reuse {
+				s.Test(reusedTest(n, t, rec))
+			} else {
+				s.TestFunc(fnTest(n, t, rec), o...)
+			}
 		default:
 			panic("num test " + t.Name)
 		}
@@ -256,7 +270,11 @@ func build1(n *Node, rec *Recorder) z.ZogSchema {
 			for _, t := range n.Tests {
 				o := t.Opts.zopts()
 				if t.Name == "fn" {
-					s.TestFunc(fnTest(n, t, rec), o...)
+					if t.Reuse {
+						s.Test(reusedTest(n, t, rec))
+					} else {
+						s.TestFunc(fnTest(n, t, rec), o...)
+					}
 					continue
 				}
 				if t.Name == "min" {
@@ -336,7 +354,11 @@ func build1(n *Node, rec *Recorder) z.ZogSchema {
 						s.EQ(t.Arg.B)
 					}
 				case "fn":
-					s.TestFunc(fnTest(n, t, rec), t.Opts.zopts()...)
+					if t.Reuse {
+						s.Test(reusedTest(n, t, rec))
+					} else {
+						s.TestFunc(fnTest(n, t, rec), t.Opts.zopts()...)
+					}
 				default:
 					panic("bool test " + t.Name)
 				}
@@ -374,7 +396,11 @@ func build1(n *Node, rec *Recorder) z.ZogSchema {
 						s.EQ(t.Arg.T, o...)
 					}
 				case "fn":
-					s.TestFunc(fnTest(n, t, rec), o...)
+					if t.Reuse {
+						s.Test(reusedTest(n, t, rec))
+					} else {
+						s.TestFunc(fnTest(n, t, rec), o...)
+					}
 				default:
 					panic("time test " + t.Name)
 				}
@@ -410,7 +436,11 @@ func build1(n *Node, rec *Recorder) z.ZogSchema {
 			case "slcontains":
 				s.Contains(dGoValue(t.Arg), o...)
 			case "fn":
-				s.TestFunc(fnTest(n, t, rec), o...)
+				if t.Reuse {
+					s.Test(reusedTest(n, t, rec))
+				} else {
+					s.TestFunc(fnTest(n, t, rec), o...)
+				}
 			default:
 				panic("slice test " + t.Name)
 			}
@@ -445,7 +475,11 @@ func build1(n *Node, rec *Recorder) z.ZogSchema {
 			if t.Name != "fn" {
 				panic("struct test " + t.Name)
 			}
-			s.TestFunc(fnTest(n, t, rec), t.Opts.zopts()...)
+			if t.Reuse {
+				s.Test(reusedTest(n, t, rec))
+			} else {
+				s.TestFunc(fnTest(n, t, rec), t.Opts.zopts()...)
+			}
 		}
 		for _, ps := range n.Posts {
 			s.PostTransform(postFn(n, ps, rec))
